@@ -216,14 +216,31 @@ def _fuzz_prefetch_determinism(tier):
                   % (150 if tier == 'quick' else 1500, seed))
 
 
+def _fuzz_stop(tier):
+    import os
+    from harness import fuzz_pipelines
+    seed = int(os.environ.get('VERIF_SEED', '0') or 0)
+    c, f = fuzz_pipelines.search_stop(tier, seed)
+    return c, f, ('%d random recipes (seed %d) of lazy stages with one or SEVERAL buffering stages (prefetch(1,b), prefetch(2,b), '
+                  'map(num_workers), batch_map(num_workers), stacked), each stopped after k in {0, 1, middle, all} results by close(), by '
+                  'dropping the iterator and by an exception thrown into it, and once by an Exception / a BaseException raised by the first '
+                  'stage: the stop returns within 20 s, no user function runs afterwards (log unchanged 50 ms later), every thread started '
+                  'by the iteration has exited (2 s grace)' % (60 if tier == 'quick' else 600, seed))
+
+
 EXTRA_FUZZ = [('bounded-pipeline-fuzz', _fuzz)]
 
 _KEYLESS = ('bounded-keyless-snapshots', _mk('keyless_snapshots', '28 stage constructions over list-backed (key-less) inputs of 0,1,3 (0..4) examples: items() is refused with ItemsNotDefined (never another exception), from_dataset(ds) and new(ds) deliver the examples of one iteration'))
 
+_CATCH_MATRIX = ('bounded-prefetch-catch-matrix', _mk('prefetch_catch_matrix', 'prefetch(w, b, catch_filter_exception=sel), sel in {True, FilterException, A, (A, KeyError)}, w in {1, 2}, values and items, 5 (7) examples (one of them None), every subset of up to 2 raising positions with FilterException / its subclass / A / its subclass / KeyError / ValueError: exactly the selected ones are omitted, the first other one arrives after all that precede it'))
+
 EXTRA_MORE = {
+    'C06': [_CATCH_MATRIX],
+    'C05': [('bounded-stop-fuzz', _fuzz_stop)],
+    'C07': [('bounded-readahead-dataset-level', _mk('readahead_dataset_level', 'list of 24 .map(f0) below map(g, num_workers=w, buffer_size=b) [fast and slow g, thread backend; multiprocessing and concurrent_mp (+ mp, dill_mp thorough) for the source side] and below prefetch(1, b) / prefetch(2, 3): f0 applications beyond the examples delivered <= b + 2 at the pause points of a slow consumer AND at the instant of every application (fast consumer, 12 reads); g applications started beyond those delivered <= b'))],
     'C02': [('bounded-offered-lengths', _mk('offered_lengths', 'sources of 0,1,2,5,8 examples; lazy apply (slice / eager filter / tile / shuffle), filter, catch, unbatch, reshuffle, local shuffle, prefetch, dynamic buckets, each also under map / batch / local shuffle: len() is refused or equals the iteration count')),
             ('bounded-numpy-indices', _mk('numpy_indices', '18 pipelines over 300 examples, 28 boundary indices, np.int8/uint8/int16 (quick) plus uint16/int32/int64 (thorough): ds[dtype(i)] equals ds[int(i)]'))],
-    'C04': [('bounded-prefetch-fuzz', _fuzz_prefetch_determinism), ('bounded-parallel-equals-sequential', _mk('parallel_equals_sequential', 'thread backend; n in {0,1,2,5,9} (.. 12), workers 1..2 (3), buffers 1,2,4 (1..7); map(num_workers), prefetch, seeded reshuffle / shared-reshuffle tile below prefetch, stacked; values and items; 3 epochs; lengths'))],
+    'C04': [_CATCH_MATRIX, ('bounded-prefetch-fuzz', _fuzz_prefetch_determinism), ('bounded-parallel-equals-sequential', _mk('parallel_equals_sequential', 'thread backend; n in {0,1,2,5,9} (.. 12), workers 1..2 (3), buffers 1,2,4 (1..7); map(num_workers), prefetch, seeded reshuffle / shared-reshuffle tile below prefetch, stacked; values and items; 3 epochs; lengths'))],
     'C11': [('bounded-diskcache-kill-points', _mk('diskcache_kill_points', 'a forked child populating 12 examples is killed (SIGKILL) after 0, 20, 50, 90 ms (0..150 ms in 10 ms steps); reopen with reuse=True: all values correct, stored ones not recomputed')),
             ('bounded-diskcache-lifecycles', _mk('diskcache_lifecycles', 'cache_dir given / None x clear x {copy outlives original, original outlives copy, no copy} x {0, 2, all of 4 examples read}; release by garbage collection; reopen with reuse=False (refused) and reuse=True (no recomputation)'))],
     'C13': [('bounded-determinism-fuzz', _fuzz_determinism), ('bounded-prefetch-determinism', _mk('parallel_equals_sequential', 'as for C04: seeded per-epoch reshuffles below prefetch / parallel map reproduce the sequential epochs'))],
@@ -231,7 +248,7 @@ EXTRA_MORE = {
             ('bounded-isolation-more', _mk('isolation_more', 'example shapes dict / tuple / namedtuple / list with mutable parts; pickle, copy, wu, memory and disk cache; mutation inside a running first-epoch loop, over items(), through a copy, after an aborted epoch, after the next example was requested; re-read by iteration, index, copy')),
             ('bounded-isolation', _mk('isolation', 'new/from_list in pickle, copy, wu mode and memory/disk cache; 7 access paths, miss and hit, nested in-place mutations'))],
     'C10': [_KEYLESS, ('bounded-cache-histories', _mk('cache_histories', 'all access histories of length 2 (3 thorough) over 17 operations on a 4-example cache with a freshly random upstream; memory threshold crossed after 0..4 stores'))],
-    'C14': [('bounded-catch', _mk('catch_epochs', 'sources of 0..7 examples, all failing subsets up to size 3, single type / tuple / subclass, values and items, two epochs, reshuffled upstream over 4 epochs, lazy/eager/FilterException selection'))],
+    'C14': [_CATCH_MATRIX, ('bounded-catch', _mk('catch_epochs', 'sources of 0..7 examples, all failing subsets up to size 3, single type / tuple / subclass, values and items, two epochs, reshuffled upstream over 4 epochs, lazy/eager/FilterException selection'))],
     'C15': [('bounded-split', _mk('split_exhaustive', 'all (n, k, i) with n <= 40 (300 thorough), k in [-1, n+2], shard indices {0, k-1, -1}'))],
     'C20': [('bounded-profiling-stage-counts', _mk('profiling_stage_counts', '10 linear element-wise pipelines (map / slice / shuffles / catch / prefetch(1) / cache / sort) over 3 and 6 (1,3,6,9) examples, two epochs: per-stage hits = examples delivered, profiled = identically seeded unprofiled twin')),
             ('bounded-profiling-transparency', _mk('profiling_transparency', 'the scenario pipelines of 13 stage classes (every third one in the quick tier), all observations incl. indices [-n-2, n+2), wrapped vs unwrapped, hit counts of the top wrapper'))],
@@ -310,4 +327,13 @@ def main():
 
 
 if __name__ == '__main__':
-    main()
+    import os as _os
+    import sys as _sys
+    try:
+        main()
+    finally:
+        # a defect under test may leave a non-daemon thread blocked for ever (that is what some checks detect): the verdict
+        # is on stdout by now, do not wait for such threads at interpreter exit
+        _sys.stdout.flush()
+        _sys.stderr.flush()
+        _os._exit(0)
